@@ -75,7 +75,9 @@ fn client_of_uri(uri: &[u8]) -> Option<usize> {
 }
 
 impl Driver {
-    pub fn new(nclients: usize, limit: usize, with_kill: bool, sock_dir: &str, hist: u64, out: &mut dyn Write) -> Driver {
+    /// `prekill`: the eventfd is signalled BEFORE it is handed to `add_kill_switch` (a shutdown requested
+    /// while the server is still being set up must not be lost)
+    pub fn new(nclients: usize, limit: usize, with_kill: bool, prekill: bool, sock_dir: &str, hist: u64, out: &mut dyn Write) -> Driver {
         std::fs::create_dir_all(sock_dir).ok();
         let path = format!("{}/s{}-{}.sock", sock_dir, std::process::id(), hist);
         let _ = std::fs::remove_file(&path);
@@ -105,6 +107,9 @@ impl Driver {
             let k = EventFd::new(libc::EFD_NONBLOCK).unwrap();
             let mine = k.try_clone().unwrap();
             let fd = k.as_raw_fd();
+            if prekill {
+                mine.write(1).unwrap();
+            }
             server.add_kill_switch(k).unwrap();
             (Some(mine), fd)
         } else {
@@ -123,7 +128,7 @@ impl Driver {
         let tags = crate::connexec::TagFiles::new(&format!("{}/tags-{}", sock_dir, std::process::id()));
         let d = Driver { server, path, clients, held: vec![], kill, listener_fd, epoll_fd, kill_fd, base_fds: 0, tags };
         let line = json!({"e": "reset", "hist": hist, "maxconn": crate::MAX_CONN, "buf": crate::BUF, "limit": obs::digits(limit as u128),
-                          "kill": with_kill, "lfd": listener_fd, "kfd": kill_fd, "nclients": nclients, "from_fd": from_fd, "kill_late": kill_late,
+                          "kill": with_kill, "lfd": listener_fd, "kfd": kill_fd, "nclients": nclients, "from_fd": from_fd, "kill_late": kill_late, "prekill": with_kill && prekill,
                           "srvfds": d.server_fd_count()});
         writeln!(out, "{}", line).unwrap();
         d
